@@ -121,6 +121,8 @@ struct OpResult {
     uint32_t nalloc = 0;  // allocation requests made by the library inside the op
     uint32_t nfailed = 0; // of which failed by injection
     uint32_t outstanding = 0; // library allocations made in this op and still live at its return
+    uint8_t n_edge = 0;        // solo pass: events at which the call touched a machine word it shares with a neighbouring
+    uint32_t edge_ev[24] = {0}; // task's memory (or memory beyond its own range): the places where a preemption matters
     uint32_t leaked = 0;      // ... and still live when all threads have ended and run their exit handlers (filled in at the end of the pass)
     uint32_t libc_static = 0; // non-reentrant libc facilities used by the call (bit index: g_libc_static_names)
     uint32_t double_free = 0; // blocks the library released a second time (the second free is not executed)
@@ -222,6 +224,7 @@ struct PassCfg {
     int victim = -1;        // PASS_NULLOTHERS: only this task executes real ops
     bool track_static = false; // compare library statics around every op
     bool fresh_threads = true;
+    bool rec_edges = false;  // record OpResult::edge_ev
     bool renew_threads = false; // between two ops of a task, put the library's per-thread state back to that of a new thread
     ExecFn exec = nullptr;
     bool null_event_ops = false;
